@@ -114,10 +114,10 @@ void case_impl(Ctx &c, bool ext) {
   SdoClient cl(s, w.req[0], w.rsp[0]);
   if (c.logging) for (int p = 0; p < ntp; p++) { MP &m = x.mp[p]; std::string d; for (size_t i = 0; i < m.objs.size(); i++) d += "obj" + std::to_string(m.objs[i] + 1) + "/" + std::to_string(m.bytes[i]) + " "; VLOG(c, "TPDO %d: id %08X type %u inhibit %u x100us event %u ms map: %s", p, *m.cfg.id, *m.cfg.type, *m.cfg.inhibit, *m.cfg.event, d.c_str()); }
   auto trig_obj_changed = [&](int o) { if (x.mode == 3) for (int p = 0; p < 4; p++) if (x.mp[p].present) for (int k : x.mp[p].objs) if (k == o) { x.tx(p, 0); break; } };
-  int steps = 0, retyped = 0;
+  int steps = 0, retyped = 0, remapped = 0;
   while (!c.t.exhausted() && steps < 200) {
     steps++; c.ops++;
-    static const uint16_t W[12] = {60, 10, 14, 14, 6, 12, 8, 8, 4, 4, 4, 4}, WX[13] = {60, 10, 14, 14, 6, 12, 8, 8, 4, 4, 4, 4, 6};
+    static const uint16_t W[12] = {60, 10, 14, 14, 6, 12, 8, 8, 4, 4, 4, 4}, WX[14] = {60, 10, 14, 14, 6, 12, 8, 8, 4, 4, 4, 4, 6, 6};
     uint32_t op = ext ? c.t.weighted(WX) : c.t.weighted(W);   // mode "random" keeps the alphabet the saved witnesses were recorded with
     s.clear_tx(); s.clear_ev(); for (int p = 0; p < 4; p++) for (auto &a : x.mp[p].alt) a.out.clear();
     if (op == 0) { s.step_tick(); x.tick(); VLOG(c, "tick -> %ld", x.T); x.compare("tick"); }
@@ -189,6 +189,23 @@ void case_impl(Ctx &c, bool ext) {
       if (c.t.chance(200)) { wr(1, *m.cfg.id & ~0x80000000u, 4, "re-validating the COB-ID"); if (x.mode == 3) x.activate(p); VLOG(c, "TPDO %d re-validated", p); }
       s.tx = seen; retyped++;
       x.compare("transmission type rewritten");
+    } else if (op == 13) { // the mapping is rewritten: invalidate, count := 0, new entries, count := k, re-validate (trigger links of the other TPDOs must survive)
+      int p = (int)c.t.below(ntp); if (x.mode == 4) continue; MP &m = x.mp[p];
+      std::vector<Frame> seen;
+      auto wr = [&](uint16_t idx, uint8_t sub, uint32_t v, int n, const char *what) { uint32_t code = cl.write(idx, sub, v, n); for (auto &f : cl.foreign) seen.push_back(f); cl.foreign.clear();
+        CHECK(c, code == 0, "parameter-write", "%s of TPDO %d (%04Xh:%u := %X) refused with %08X", what, p, idx, sub, v, code); };
+      if (!(*m.cfg.id & 0x80000000u)) { wr((uint16_t)(0x1800 + p), 1, *m.cfg.id | 0x80000000u, 4, "invalidating the COB-ID"); if (x.mode == 3) x.activate(p); }
+      wr((uint16_t)(0x1A00 + p), 0, 0, 1, "clearing the mapping count");
+      std::vector<int> no, nb; int total = 0; bool used[5] = {false, false, false, false, false}; int want = 1 + (int)c.t.below(5);
+      for (int k = 0; k < want; k++) { int o = (int)c.t.below(5); if (used[o] || total + BY[o] > 8) continue; used[o] = true; no.push_back(o); nb.push_back(BY[o]); total += BY[o]; }
+      if (no.empty()) { no.push_back(0); nb.push_back(1); }
+      for (size_t k = 0; k < no.size(); k++) wr((uint16_t)(0x1A00 + p), (uint8_t)(k + 1), MAPS[no[k]], 4, "writing a mapping entry");
+      wr((uint16_t)(0x1A00 + p), 0, (uint32_t)no.size(), 1, "writing the mapping count");
+      m.objs = no; m.bytes = nb;
+      { std::string d; for (size_t i = 0; i < m.objs.size(); i++) d += "obj" + std::to_string(m.objs[i] + 1) + "/" + std::to_string(m.bytes[i]) + " "; VLOG(c, "TPDO %d re-mapped while invalid: %s", p, d.c_str()); }
+      if (c.t.chance(220)) { wr((uint16_t)(0x1800 + p), 1, *m.cfg.id & ~0x80000000u, 4, "re-validating the COB-ID"); if (x.mode == 3) x.activate(p); VLOG(c, "TPDO %d re-validated", p); }
+      s.tx = seen; remapped++;
+      x.compare("mapping rewritten");
     } else {              // change non-asynchronous values silently
       for (int o : {1, 3, 4}) { uint32_t v = c.t.u32(); if (o == 4) v &= 0xFFFFFF; std::vector<uint8_t> before = w.content(*x.ob[o]);
         s.api_begin(); if (x.ob[o]->width == 1) CODictWrByte(&s.node->Dict, CO_DEV(0x2100, o + 1), (uint8_t)v); else CODictWrLong(&s.node->Dict, CO_DEV(0x2100, o + 1), v); s.api_end("CODictWr");
@@ -197,7 +214,7 @@ void case_impl(Ctx &c, bool ext) {
     }
   }
   if (x.deferred || x.by_event || x.by_sync) c.nontrivial = true;
-  if (retyped) c.cls("transmission-type-rewritten");
+  if (retyped) c.cls("transmission-type-rewritten"); if (remapped) c.cls("mapping-rewritten");
   if (x.deferred) c.cls("deferred-by-inhibit"); if (x.by_event) c.cls("sent-by-event-timer"); if (x.by_sync) c.cls("sent-by-sync-count"); if (x.ties) c.cls("inhibit-event-tie-with-pending-trigger");
 }
 
@@ -207,7 +224,7 @@ void ext_case(Ctx &c) { case_impl(c, true); }
 Registrar reg(Prop{
     "C12",
     "Cases: node id 1..127, 1..4 TPDOs with mappings of 1..5 distinct objects of 1/2/3(24 bit of a 32-bit object)/4 bytes totalling <= 8 bytes, type in {1..240, 254, 255}, inhibit 0..8 ms (non-zero only for 254/255), event time 0..12 ms with inhibit == event ties produced on purpose, valid or invalid COB-ID; "
-    "histories of up to 200 ops: ticks, explicit COTPdoTrigPdo/COTPdoTrigObj, value changes of asynchronous and other objects through API/SDO/RPDO, SYNCs, NMT changes, SDO writes to the event time and to the COB-ID valid bit while running; mode random-retype adds: invalidate the COB-ID, rewrite transmission type and inhibit time, re-validate (in PRE-OPERATIONAL or OPERATIONAL), and generates for each of the five objects whether it is stored directly in the entry and whether it carries the asynchronous-trigger flag. "
+    "histories of up to 200 ops: ticks, explicit COTPdoTrigPdo/COTPdoTrigObj, value changes of asynchronous and other objects through API/SDO/RPDO, SYNCs, NMT changes, SDO writes to the event time and to the COB-ID valid bit while running; mode random-retype adds: invalidate the COB-ID, rewrite transmission type and inhibit time - or the whole mapping (count := 0, new entries, count := k) -, re-validate (in PRE-OPERATIONAL or OPERATIONAL), and generates for each of the five objects whether it is stored directly in the entry and whether it carries the asynchronous-trigger flag. "
     "Oracle: reference schedule: after every op and every single tick the multiset of (identifier, DLC, data) TPDO frames equals the model's (data = little-endian values of the mapped objects at emission; immediate emission on trigger unless inhibited; exactly one deferred emission at inhibit end; event timer restarted by every emission; type n => every n-th SYNC; nothing outside OPERATIONAL or with an invalid COB-ID; ties resolved inhibit first). "
     "Non-trivial: >= 1 emission deferred by the inhibit time or produced by the event timer or by the SYNC count. Distinct = distinct decoded choice sequence.",
     {Mode{"random", one_case, false, 600000, 8000000, 0, 0, 300, 500},
